@@ -120,6 +120,8 @@ func init() {
 		r.Rule("C06/SEQ-PAIR", "every RTP packet literal of an encoder takes SequenceNumber from the encoder's counter, and between two consecutive packet literals (or a literal and the return) the counter is incremented exactly once; the counter is written nowhere else but Init", 24)
 		r.Rule("C06/HDR-FIELDS", "every packet literal has Version 2, the configured PayloadType (or the format-mandated static one) and the configured SSRC", 24)
 		r.Rule("C06/INIT-SEED", "Init seeds the counter from *InitialSequenceNumber after defaulting it, and defaults SSRC when nil, on every successful path", 15)
+		r.Rule("C06/FRAGMENT-BUDGET", "a fragmenting encoder that sizes its output with a ceiling-division helper never builds a payload longer than PayloadMaxSize: the helper is a ceiling division, the loop runs exactly that many times, the chunk is avail or (only in the last iteration) the remainder, each iteration takes the chunk off the remainder, the length that was counted covers the remainder the loop starts with, and header + avail <= PayloadMaxSize (all as exact linear identities over the SSA form)", 7)
+		r.Rule("C06/MARKER-PARAM", "an Encoder method that is told by a bool parameter whether the batch it writes ends the frame lets that parameter decide the Marker of every packet it builds, and hands a value computed from it to every method with such a parameter that it delegates to (otherwise a packet in the middle of a frame carries the marker, or the last one does not)", 8)
 		r.Rule("C06/INPUT-IMMUTABLE", "no store, copy destination or append base aliases a buffer passed to Encode", 15)
 		nlit := 0
 		for _, rel := range encoderPackages(p) {
@@ -196,6 +198,7 @@ func init() {
 				return ok && core.FieldOfAddr(fa) == seqField
 			}
 			litFns := map[*ssa.Function]bool{}
+			markerParam := markerParams(fns, lits, sp)
 			for i, l := range lits {
 				nlit++
 				construct := fmt.Sprintf("%s %s packet#%d", short, fnShort(l.fn), ordinalIn(lits, i))
@@ -241,6 +244,70 @@ func init() {
 					bad = append(bad, "PayloadType is not e.PayloadType")
 				}
 				r.Check(len(bad) == 0, "C06/HDR-FIELDS", construct, pos, "Version 2, configured PayloadType/SSRC", strings.Join(bad, "; "))
+				// MARKER-PARAM (packets)
+				for _, bp := range boolParams(l.fn) {
+					if !markerParam[bp] {
+						continue
+					}
+					mk := l.hdr["Marker"]
+					r.Check(mk != nil && dependsOn(mk.Val, bp), "C06/MARKER-PARAM", construct+" param "+bp.Name(), pos, "Marker is computed from the parameter", "the packet's Marker does not depend on the bool parameter "+bp.Name()+" of the method that builds it")
+				}
+				// FRAGMENT-BUDGET
+				if cc := ceilDivCalls(l.fn); len(cc) == 1 {
+					ok, detail := fragmentBudget(l, cc[0].call, cc[0].dividend, cc[0].divisor, enc)
+					r.Check(ok, "C06/FRAGMENT-BUDGET", construct, pos, detail, detail)
+				} else if len(cc) > 1 {
+					r.Fail("C06/FRAGMENT-BUDGET", construct, pos, "more than one packet-count computation in one fragmenting function: undecided")
+				}
+			}
+			// MARKER-PARAM (delegation): a method with a bool parameter that calls a packet-building method with a bool parameter
+			for _, fn := range fns {
+				bps := boolParams(fn)
+				if len(bps) == 0 {
+					continue
+				}
+				for _, b := range fn.Blocks {
+					for _, in := range b.Instrs {
+						call, ok := in.(*ssa.Call)
+						if !ok {
+							continue
+						}
+						callee := call.Call.StaticCallee()
+						if callee == nil || callee.Pkg != sp {
+							continue
+						}
+						for _, cp := range boolParams(callee) {
+							if !markerParam[cp] {
+								continue
+							}
+							idx := -1
+							for i, q := range callee.Params {
+								if q == cp {
+									idx = i
+								}
+							}
+							if idx < 0 || idx >= len(call.Call.Args) {
+								continue
+							}
+							dep := false
+							anyMarker := false
+							for _, bp := range bps {
+								if markerParam[bp] {
+									anyMarker = true
+								}
+							}
+							if !anyMarker {
+								continue
+							}
+							for _, bp := range bps {
+								if markerParam[bp] && dependsOn(call.Call.Args[idx], bp) {
+									dep = true
+								}
+							}
+							r.Check(dep, "C06/MARKER-PARAM", fmt.Sprintf("%s %s -> %s", short, fnShort(fn), fnShort(callee)), p.Pos(call.Pos()), "the callee's flag is computed from the caller's", "the bool argument handed to "+fnShort(callee)+" does not depend on the caller's own bool parameter")
+						}
+					}
+				}
 			}
 			// (c) at most one increment per packet: between two increments there is a packet literal;
 			//     and the counter is stored only by increments (in functions with literals) and Init
